@@ -251,6 +251,26 @@ fn run(ctx: &mut Ctx) {
             check_getter(ctx, &arena, &region, bi::FRAMEBUFFER, Some(8), if b <= 2 { "framebuffer_type/known" } else { "framebuffer_type/unknown" });
         });
     }
+    // ---------------- (d2) two framebuffer tags, one of them with an arbitrary type byte
+    ctx.bound("framebuffer_type_pairs", "all 256 type bytes on the first / on the second of two framebuffer tags (the other one RGB): the getter reports the first tag in walk order, as an error carrying its byte when that byte is unknown");
+    for b in 0..=255u8 {
+        for first in [true, false] {
+            let mut t = bi::enc_framebuffer(0x1817_1615_1413_1211, 4096, 1024, 768, 32, b, &[1, 0, 0x21, 0x22, 0x23, 8]);
+            if b == 0 {
+                t.truncate(32 + 5);
+                wr32(&mut t, 4, 37);
+            }
+            let rgb = bi::enc_framebuffer(0x9897_9695_9493_9291, 2048, 800, 600, 24, 1, &[16, 8, 8, 8, 0, 8]);
+            let tags = if first { vec![t, rgb, bi::end_tag()] } else { vec![rgb, t, bi::end_tag()] };
+            let region = bi::region(&tags, &bi::marker_pad);
+            let describe = || J::obj().set("part", "framebuffer_type_pairs").set("type_byte", b).set("arbitrary_tag_first", first).set("region", J::hex(&region));
+            ctx.leaf(describe, |ctx| {
+                ctx.state(hash::hash_bytes(&region));
+                ctx.nontrivial();
+                check_getter(ctx, &arena, &region, bi::FRAMEBUFFER, Some(8), "framebuffer_type_pairs");
+            });
+        }
+    }
     // ---------------- (f) counts around 8- and 16-bit boundaries
     ctx.bound("large_counts", "framebuffer palettes of 254..=257 and 1000 colours, memory maps of 255..=257 entries, EFI maps of 255..=257 descriptors, strings / SMBIOS / network contents of 254..=257 and 65534..=65537 bytes");
     let mut big: Vec<(u32, Vec<u8>)> = vec![];
